@@ -172,6 +172,47 @@ func instances(h *Sx, terms []skolem, limit int) []*Sx {
 				walk(c, guards)
 			}
 		case "forall":
+			if len(f.L) == 3 && len(f.L[1].L) > 1 && len(f.L[1].L) <= 3 {
+				// several binders: every sort-compatible tuple of the given terms (bounded)
+				bs := f.L[1].L
+				body := f.L[2]
+				if body.head() == "!" && len(body.L) >= 2 {
+					body = body.L[1]
+				}
+				var rec func(k int, m map[string]*Sx)
+				count := 0
+				rec = func(k int, m map[string]*Sx) {
+					if count >= 27 || len(out) >= limit {
+						return
+					}
+					if k == len(bs) {
+						inst := body.subst(m)
+						for i := len(guards) - 1; i >= 0; i-- {
+							inst = &Sx{L: []*Sx{{Atom: "=>"}, guards[i], inst}}
+						}
+						out = append(out, inst)
+						count++
+						return
+					}
+					if len(bs[k].L) != 2 {
+						return
+					}
+					srt := bs[k].L[1].String()
+					for _, t := range terms {
+						if t.sort != srt {
+							continue
+						}
+						m2 := map[string]*Sx{}
+						for kk, vv := range m {
+							m2[kk] = vv
+						}
+						m2[bs[k].L[0].Atom] = &Sx{Atom: t.name}
+						rec(k+1, m2)
+					}
+				}
+				rec(0, map[string]*Sx{})
+				return
+			}
 			if len(f.L) != 3 || len(f.L[1].L) != 1 || len(f.L[1].L[0].L) != 2 {
 				return
 			}
